@@ -10,7 +10,7 @@
 From Coq Require Import ZArith List.
 From Falcon Require Import Base.Res IL.Const IL.Expr IL.Func Exec.Sem
      Isa.A64 Isa.A64Lift Isa.A64Run Isa.A64Proofs Isa.A64Sim Isa.A64Arith Isa.A64Arith2
-     Isa.A64Branch Isa.A64Branch2 Isa.C03Check Isa.A64Tie.
+     Isa.A64Branch Isa.A64Branch2 Isa.C03Check Isa.A64Tie Isa.A64Flags Isa.A64Flags2 Isa.A64Mem Isa.A64Load.
 Import ListNotations.
 Local Open Scope Z_scope.
 
@@ -54,6 +54,44 @@ Theorem mov_wide_sim : forall addr (sf : bool) opc hw imm16 rd,
   sim addr (IMovWide sf opc hw imm16 rd).
 Proof. exact A64Arith2.mov_wide_sim. Qed.
 Print Assumptions mov_wide_sim.
+
+(* 4b. ADDS (immediate; shifted register LSL / LSR): registers AND all four flags *)
+Theorem adds_imm_sim : forall addr (sf sh : bool) imm12 rn rd,
+  0 <= imm12 < 4096 -> 0 <= rn < 32 -> 0 <= rd < 32 -> sim addr (IAddSubImm sf false true sh imm12 rn rd).
+Proof. exact A64Flags2.adds_imm_sim. Qed.
+Print Assumptions adds_imm_sim.
+Theorem adds_shift_sim : forall addr (sf : bool) k rm imm6 rn rd,
+  lsl_or_lsr k -> 0 <= imm6 < dsize sf -> 0 <= rm < 32 -> 0 <= rn < 32 -> 0 <= rd < 32 ->
+  sim addr (IAddSubShift sf false true k rm imm6 rn rd).
+Proof. exact A64Flags2.adds_shift_sim. Qed.
+Print Assumptions adds_shift_sim.
+
+(* 4c. SUBS: known finding kf:subs-carry-is-borrow.  What IS proved ([sim_c true]): the destination,
+   every other register, N, Z, V, memory and the next pc agree with the architecture, and the IL's c
+   is exactly the NEGATION of the architectural C.  What is refuted: [sim] itself, on a witness. *)
+Theorem subs_imm_sim_partial : forall addr (sf sh : bool) imm12 rn rd,
+  0 <= imm12 < 4096 -> 0 <= rn < 32 -> 0 <= rd < 32 -> sim_c true addr (IAddSubImm sf true true sh imm12 rn rd).
+Proof. intros. apply A64Flags2.addsubs_imm_simc; assumption. Qed.
+Print Assumptions subs_imm_sim_partial.
+Theorem subs_shift_sim_partial : forall addr (sf : bool) k rm imm6 rn rd,
+  lsl_or_lsr k -> 0 <= imm6 < dsize sf -> 0 <= rm < 32 -> 0 <= rn < 32 -> 0 <= rd < 32 ->
+  sim_c true addr (IAddSubShift sf true true k rm imm6 rn rd).
+Proof. intros. apply A64Flags2.addsubs_shift_simc; assumption. Qed.
+Print Assumptions subs_shift_sim_partial.
+(* subs x0, x1, x2 = 0xeb020020 at 0x1000, x1 = 1, x2 = 0 *)
+Theorem subs_carry_refuted : decode 3942776864 = Some wit_instr /\ ~ sim 4096 wit_instr.
+Proof. split; [exact A64Flags2.wit_decodes|exact A64Flags2.subs_carry_refuted]. Qed.
+Print Assumptions subs_carry_refuted.
+
+(* 4d. single-register LOADS without write-back: LDR (W, X), LDRB, LDRH, LDRSB (W, X), LDRSH (W, X), LDRSW;
+   unsigned-offset (scaled = true) and unscaled LDUR forms; base register 31 = SP; both data endiannesses.
+   [mapped] (a hypothesis of sim): the bytes of the access are present in the IL memory *)
+Theorem ldr_imm_sim : forall addr size opc (scaled : bool) imm rn rt,
+  0 <= size < 4 -> 1 <= opc < 4 -> decode_ldst_opc_ok size opc = true ->
+  0 <= rn < 32 -> 0 <= rt < 32 ->
+  sim addr (ILdStImm size opc WOffset scaled imm rn rt).
+Proof. exact A64Load.ldr_imm_sim. Qed.
+Print Assumptions ldr_imm_sim.
 
 (* 5. branches *)
 Theorem b_sim : forall addr imm26, sim addr (IBImm false imm26).
